@@ -349,8 +349,14 @@ example :
 /-- slopes `(height − v)/d` are compared through their squares; squares of slopes are ≥ 0 and the
 reported elevation is `max(0, ·)` of the smallest slope, hence never negative -/
 theorem elev_nonneg (height v d2 : ℚ) (hd : 0 < d2) : 0 ≤ (height - v) ^ 2 / d2 ∧
-    Gen.elev_return = "max(0, result)" :=
-  ⟨div_nonneg (sq_nonneg _) (le_of_lt hd), rfl⟩
+    (∀ o : Option ℚ, ∀ v', optMax0 o = some v' → 0 ≤ v') := by
+  refine ⟨div_nonneg (sq_nonneg _) (le_of_lt hd), ?_⟩
+  intro o v' h
+  cases o with
+  | none => cases h
+  | some u =>
+    simp only [optMax0, Option.some.injEq] at h
+    rw [← h]; unfold rmax; split_ifs <;> linarith
 
 /-- **the elevation is finite**: a map with at least 4 rows has, for every position inside it, a row
 at distance ≥ 1.5 = `r_min` (so the minimum over pixels is taken over a non-empty set) -/
